@@ -18,8 +18,8 @@ NOT_DECIDED = ("Logical entailment over all zones and NSEC3 subsets, completenes
 ASSUMPTIONS = ["FULL feature configuration (dnssec-ring)", "Label/[u8] comparisons are the canonical hash order (C04)"]
 
 N = 'hickory_net::dnssec::nsec3::'
-ITER = r'NSEC3::iterations\(<vec::Vec<T;A> as ops::Index<I>>::index\(.*,0\)\.nsec3_data\)'
-QREC = r"<slice::Iter<'a;T> as iter::Iterator>::find\(slice::iter\(arg3\.nsec3s\),closure:nsec3::validate_nodata_response::\{closure#0\}\)"
+ITER = r'NSEC3::iterations\(<Vec<T;A> as Index<I>>::index\(.*,0\)\.nsec3_data\)'
+QREC = r"<Iter<'a;T> as Iterator>::find\(slice::iter\(arg3\.nsec3s\),closure:nsec3::validate_nodata_response::\{closure#0\}\)"
 CEW = r'Context::closest_encloser_proof_with_wildcard\(arg3,true\)'
 CEX = r'Context::closest_encloser_proof_with_wildcard\(arg1,false\)'
 
@@ -32,8 +32,8 @@ def run(cx):
         req = {
             'iterations-le-soft': rf'^le\({ITER},arg6\)$',
             'iterations-le-hard': rf'^le\({ITER},arg7\)$',
-            'params-agree': r"^!<slice::Iter<'a;T> as iter::Iterator>::any\(slice::iter\(.*\),closure:nsec3::verify_nsec3::\{closure#1\}\)$",
-            'all-records-scanned': r"^!ok\(<slice::Iter<'a;T> as iter::Iterator>::next\(arg5\)\)$",
+            'params-agree': r"^!<Iter<'a;T> as Iterator>::any\(slice::iter\(.*\),closure:nsec3::verify_nsec3::\{closure#1\}\)$",
+            'all-records-scanned': r"^!ok\(<Iter<'a;T> as Iterator>::next\(arg5\)\)$",
         }
         cx.guard('C09.G1', down, req, expect=3, fn=f)
         nx = [s for s in down if 'validate_nxdomain' in s.term]
@@ -42,7 +42,7 @@ def run(cx):
         cx.guard('C09.G1', nd, {'rcode-NoError': r'^is\(arg3,NoError\)$'}, expect=1, fn=f)
         # per-record checks: the loop's back edge is only reachable through the three pass edges
         body = [s for bb in range(len(f.blocks)) for s, ps in f.edge_props(bb).items()
-                if any(re.search(r"^ok\(<slice::Iter<'a;T> as iter::Iterator>::next\(arg5\)\)$", shorten(p)) for p in ps)]
+                if any(re.search(r"^ok\(<Iter<'a;T> as Iterator>::next\(arg5\)\)$", shorten(p)) for p in ps)]
         cx.check('C09.G1', len(body) == 1, f.path, 'loop', 'record-loop-shape', f'{len(body)} loop bodies')
         for name, pat in {
                 'owner-splits': r'^ok\(nsec3::split_first_label\(',
@@ -78,7 +78,7 @@ def run(cx):
     if f:
         sec = [s for s in cx.calls(f, r'Context::proof$') if 'Proof::Secure' in s.term]
         total_secure += len(sec)
-        common = {'no-record-matches-qname': r"^!<slice::Iter<'a;T> as iter::Iterator>::any\(slice::iter\(arg1\.nsec3s\),closure:nsec3::validate_nxdomain_response::\{closure#0\}\)$",
+        common = {'no-record-matches-qname': r"^!<Iter<'a;T> as Iterator>::any\(slice::iter\(arg1\.nsec3s\),closure:nsec3::validate_nxdomain_response::\{closure#0\}\)$",
                   'next-closer-covered': rf'^ok\({CEX}\.0\.next_closer\)$',
                   'wildcard-covered': rf'^ok\({CEX}\.1\)$',
                   'closest-encloser-matched-or-parent-is-soa': rf'^ok\({CEX}\.0\.closest_encloser\)$|^eq:Option\(Option::Some\(Name::base_name\(arg1\.query\.name\)\),arg1\.soa\)$'}
@@ -174,7 +174,7 @@ def auth_filter(cx, rule, variant):
             continue
         found += 1
         cx.guard(rule, some, {'owner-has-secure-record':
-                 r"^<slice::Iter<'a;T> as iter::Iterator>::any\(slice::iter\(.*\.authorities\),closure:.*\)$"}, expect=1, fn=g)
+                 r"^<Iter<'a;T> as Iterator>::any\(slice::iter\(.*\.authorities\),closure:.*\)$"}, expect=1, fn=g)
         # the inner predicate: same owner and Secure
         for s in some:
             pass
